@@ -100,7 +100,7 @@ void harness(void)
 	memset(&buf, 0, sizeof(buf));
 	buf._content_traits = mpt_type_traits('d');
 	buf._used = glen * sizeof(double);
-	buf._size = buf._used;
+	*(size_t *) &buf._size = 3 * sizeof(double);
 	*(MPT_STRUCT(buffer) **) &arr = &buf;
 
 	mt = mpt_iterator_profile(&arr, text);
